@@ -141,6 +141,11 @@ def _scan_numeral(src, i):
     binmode = src[i] == 0x30 and i + 1 < n and src[i + 1] in b'bB'
     while j < n:
         c = src[j]
+        if c == 0x2e and j + 1 < n and src[j + 1] == 0x2e:
+            # "N.." : picotool's dialect (its own tests lex 5..b as 5, .., b; PICO-8 counts 1..5 specially) ends the
+            # numeral before a concatenation operator.  Plain Lua would call this a malformed number; either way a
+            # following ".." is never part of the numeral's value.
+            break
         if is_name_char(c) and c < 0x80 or c == 0x2e:
             j += 1
             if not binmode and ((not hexmode and c in b'eE') or (hexmode and c in b'pP')):
@@ -400,9 +405,11 @@ _SELFTEST = [
     (b'a- -b', ['name', 'symbol', 'symbol', 'name']),
     (b't[ [[k]] ]', ['name', 'symbol', 'string', 'symbol']),
     (b'a\\b^^c', ['name', 'symbol', 'name', 'symbol', 'name']),
+    (b'x=1..2 y=0x7f..s z=5. ..a', ['name', 'symbol', 'number', 'symbol', 'number', 'name', 'symbol', 'number', 'symbol', 'name',
+                                   'name', 'symbol', 'number', 'symbol', 'name']),
     (b'@a $b %c', ['symbol', 'name', 'symbol', 'name', 'symbol', 'name']),
 ]
-_SELFTEST_BAD = [b'::a b::', b'1..2', b'1..x', b'3..2', b'1and', b'0x', b'0xg', b'"a\nb"', b'"\\q"', b'"\\300"', b'[[x',
+_SELFTEST_BAD = [b'::a b::', b'1and', b'0x', b'0xg', b'"a\nb"', b'"\\q"', b'"\\300"', b'[[x',
                  b'--[[x', b'"abc', b'a!b', b'`', b'a::b', b'1.2.3', b'0b12', b'1e', b'1e+']
 
 
